@@ -68,6 +68,11 @@ def run(prog, chk):
         elif s['k'] == 'for':
             loops.append(s)
     if not bit_ids:
+        from .C02 import mask_candidates
+        cand = mask_candidates(rs, q)
+        if cand:
+            chk.ob('R04.2', rs, rs.ln, False, 'reset selects the cells of qubit %s with mask %s, which is not 1 << %s' % (q['name'], cand, q['name']), key='mask')
+            return
         raise AnalysisBroken('reset: target bit mask (1 << q) not found')
     # the outcome may be computed in place or by a file-local helper called with (generator, p0, p1)
     helper = None
